@@ -171,7 +171,7 @@ type Stream struct {
 func StreamOf(run *Run) *Stream {
 	s := &Stream{Completes: run.Rec.Completes, Unflushed: len(run.Rec.Unflushed()), AfterDone: run.Rec.AfterDone, TimedOut: run.TimedOut}
 	if run.Err != nil {
-		s.ExecErr = run.Err.Error()
+		s.ExecErr = strings.Join(strings.Fields(run.Err.Error()), " ") // one line (several reports are joined by newlines)
 	}
 	for _, raw := range run.Rec.Frames {
 		s.Frames = append(s.Frames, ParseFrame(raw))
